@@ -131,6 +131,12 @@ fn operand(i: usize, prefix: &[UnOp]) -> (Vec<String>, Expr) {
 
 /// flat chain p o1 q o2 r o3 s with one operand carrying a unary prefix
 fn chain(ops: [BinOp; 3], prefixed: Option<(usize, &[UnOp])>) -> Expr {
+    chain_with_call(ops, prefixed, None)
+}
+
+/// `call`: operand number `call.0` is written as a function call whose value is that operand and
+/// whose other arguments hold operators of every tightness (form `call.1`)
+fn chain_with_call(ops: [BinOp; 3], prefixed: Option<(usize, &[UnOp])>, call: Option<(usize, usize)>) -> Expr {
     let mut toks = vec![];
     let mut operands = vec![];
     for i in 0..4 {
@@ -139,6 +145,17 @@ fn chain(ops: [BinOp; 3], prefixed: Option<(usize, &[UnOp])>) -> Expr {
             _ => &[],
         };
         let (t, e) = operand(i, pre);
+        let (t, e) = match call {
+            Some((j, form)) if j == i => {
+                let s = |x: &[&str]| x.iter().map(|y| y.to_string()).collect::<Vec<String>>();
+                match form {
+                    0 => ([s(&["ite", "(", "1", ","]), t, s(&[",", "0", "=", "0", ")"])].concat(), ite(lit(1), e, bin(BinOp::Eq, lit(0), lit(0)))),
+                    1 => ([s(&["ite", "(", "0", ",", "1", "|", "1", ","]), t, s(&[")"])].concat(), ite(lit(0), bin(BinOp::Or, lit(1), lit(1)), e)),
+                    _ => ([s(&["ite", "(", "2", "*", "3", "<", "7", ","]), t, s(&[",", "1", "<", "2", "+", "1", ")"])].concat(), ite(bin(BinOp::Lt, bin(BinOp::Mul, lit(2), lit(3)), lit(7)), e, bin(BinOp::Lt, lit(1), bin(BinOp::Add, lit(2), lit(1))))),
+                }
+            }
+            _ => (t, e),
+        };
         toks.extend(t);
         operands.push(e);
         if i < 3 {
@@ -174,7 +191,7 @@ pub fn run(tier: Tier, seed: u64) -> i32 {
 
     // part 1a: flat chains, one unit of work = one operator triple x one valuation
     let nvals_pref = vals.len() as u64;
-    let st = par_range("1a: chains p o q o r o s over all 16^3 operator triples x (no prefix + 12 unary prefixes x 4 operand positions) x valuations", 4096 * vals.len() as u64, &deadline, |idx, st| {
+    let st = par_range("1a: chains p o q o r o s over all 16^3 operator triples x (no prefix + 12 unary prefixes x 4 operand positions + 3 function-call forms x 4 positions) x valuations", 4096 * vals.len() as u64, &deadline, |idx, st| {
         let ops = triple(idx % 4096);
         let vi = (idx / 4096) as usize;
         let v = vals[vi];
@@ -186,6 +203,15 @@ pub fn run(tier: Tier, seed: u64) -> i32 {
                     exprs.push(chain(ops, Some((pos, p))));
                 }
             }
+        }
+        // one operand written as a function call (three forms x four positions), first two valuations
+        if vi < 2 {
+            for pos in 0..4 {
+                for form in 0..3 {
+                    exprs.push(chain_with_call(ops, None, Some((pos, form))));
+                }
+            }
+            st.witness("operand_written_as_a_function_call");
         }
         exprs.retain(|e| ok_under(e, &v));
         if exprs.is_empty() {
@@ -490,7 +516,7 @@ pub fn run(tier: Tier, seed: u64) -> i32 {
             "reference evaluator refsem::binop/unop/climb is the oracle (i64 wrapping, shift count & 63, truncating division, MIN/-1 = MIN, MIN%-1 = 0)".into(),
             "valuations are a fixed set of 12 (4 for the unary-prefixed chains in the quick tier) chosen so that different trees give different values; values outside the boundary sets are not enumerated (DESIGN section 10)".into(),
         ],
-        required_witnesses: vec!["very_long_expression", "expression_after_12000_rows_that_could_not_be_evaluated", "operands_glued_to_operators_next_to_signals_spelt_alike", "flat_chain", "unary_prefixed_operand", "explicit_tree", "operator_table_entry", "MIN_op_minus_one", "shift_count_outside_0_63", "ite_with_failing_or_drawing_unselected_branch", "literal_radix_form"],
+        required_witnesses: vec!["very_long_expression", "expression_after_12000_rows_that_could_not_be_evaluated", "operands_glued_to_operators_next_to_signals_spelt_alike", "operand_written_as_a_function_call", "flat_chain", "unary_prefixed_operand", "explicit_tree", "operator_table_entry", "MIN_op_minus_one", "shift_count_outside_0_63", "ite_with_failing_or_drawing_unselected_branch", "literal_radix_form"],
         exhaustive_note: "all operator triples, shapes, prefixes and operand pairs listed".into(),
         e1: false,
     };
